@@ -76,7 +76,7 @@ func runC14(c *Ctx) {
 		flows[f] = eng.NewLockFlow(f)
 		acqs += flows[f].Acqs
 	}
-	c.R.RequireMin("R14.1", "lock acquisitions in stringclassifier", acqs, 6)
+	c.R.RequireMin("R14.1", "lock acquisitions in stringclassifier", acqs, 3)
 	// roles: the guarded map is the only map field of Classifier, its guard the only (RW)Mutex field, the
 	// lazily initialised field the only *searchset.SearchSet field of the map's element type
 	clsT := p.Named(scPkg, "Classifier")
@@ -182,7 +182,7 @@ func runC14(c *Ctx) {
 			c.R.Fail("R14.1", key+" without muValues", p.Pos(a.in.Pos()), fmt.Sprintf("needs muValues in %s mode on every path; held: %s", mode, flows[a.fn].Before[a.in].String()))
 		}
 	}
-	c.R.RequireMin("R14.1", "accesses to Classifier.values", nAcc, 10)
+	c.R.RequireMin("R14.1", "accesses to Classifier.values", nAcc, 4)
 
 	// ---- R14.2: check-then-act atomicity on Classifier.values --------------------------
 	for _, w := range valueAccs {
@@ -443,7 +443,7 @@ func checkLazySet(c *Ctx, p *core.Prog, fns []*ssa.Function, flows map[*ssa.Func
 		}
 	}
 	c.R.RequireMin("R14.3", "writes of knownValue.set outside composite literals", nWrites, 1)
-	c.R.RequireMin("R14.3", "reads of knownValue.set", nReads, 3)
+	c.R.RequireMin("R14.3", "reads of knownValue.set", nReads, 1)
 }
 
 func rootParam(v ssa.Value) *ssa.Parameter {
@@ -565,7 +565,7 @@ func checkV1SharedWrites(c *Ctx, p *core.Prog) {
 		e := runEffects(c, p, "R14.5", effectRoot{fn: fn, name: strings.TrimPrefix(short, "/"), params: provParams(fn, r.params...), allowed: allowed}, v1Scope, true)
 		total += len(e.Explored())
 	}
-	c.R.RequireMin("R14.5", "functions explored from the v1 entry points", total, 60)
+	c.R.RequireMin("R14.5", "functions explored from the v1 entry points", total, 25)
 }
 
 var _ = types.Typ
